@@ -156,6 +156,38 @@ def check_window(prog, check, f):
     sattr = [a for a in attrs if 'upress' in a.lower()]
     if len(dattr) != 1 or len(sattr) != 1:
         raise AnalysisError('C16.R3: cannot identify the default cutoff / suppression attributes (%s / %s)' % (dattr, sattr))
+    # "all points when there is no cutoff": a model nobody gave a cutoff starts without one, and with the k=0 point shown
+    for n in ast.walk(init.node):
+        if isinstance(n, ast.Assign) and len(n.targets) == 1 and isinstance(n.targets[0], ast.Attribute) and \
+                isinstance(n.targets[0].value, ast.Name) and n.targets[0].value.id == 'self' and n.targets[0].attr in (dattr[0], sattr[0]):
+            want = None if n.targets[0].attr == dattr[0] else False
+            okd = isinstance(n.value, ast.Constant) and n.value.value is want
+            check.saw(init)
+            check.ob('C16.R3', '%s::starts-without(%s)' % (init.key, n.targets[0].attr), okd, '%s:%d' % (init.module.rel, n.lineno),
+                     'a new model has %s = %r' % (n.targets[0].attr, want) if okd else
+                     'a new model starts with %s = `%s`: retrievals are cut / shifted although no cutoff or suppression was asked for'
+                     % (n.targets[0].attr, unparse(n.value)), 'a model solved over more periods than that default, read with GetTimeSeries(name)')
+    # the groups of series are different results: two group names never select the same holder
+    chosen = {}
+    for n in ast.walk(f.node):
+        if isinstance(n, ast.If) and isinstance(n.test, ast.Compare) and len(n.test.ops) == 1 and isinstance(n.test.ops[0], ast.Eq) and \
+                isinstance(n.test.left, ast.Name) and n.test.left.id in params and isinstance(n.test.comparators[0], ast.Constant) and \
+                isinstance(n.test.comparators[0].value, str):
+            for st_ in n.body:
+                if isinstance(st_, ast.Assign) and len(st_.targets) == 1 and isinstance(st_.targets[0], ast.Name) and \
+                        isinstance(st_.value, ast.Attribute) and st_.value.attr.startswith('TimeSeries'):
+                    chosen.setdefault(n.test.comparators[0].value, []).append((st_.value.attr, st_.lineno))
+    if len(chosen) >= 2:
+        by_attr = {}
+        for lit_, lst_ in chosen.items():
+            for a_, ln_ in lst_:
+                by_attr.setdefault(a_, []).append((lit_, ln_))
+        for a_, users in sorted(by_attr.items()):
+            lits_ = sorted({u[0] for u in users})
+            check.ob('C16.R3', '%s::group-selects-its-own-holder(%s)' % (f.key, a_), len(lits_) == 1, '%s:%d' % (f.module.rel, users[0][1]),
+                     'holder %s is what group %r returns' % (a_, lits_[0]) if len(lits_) == 1 else
+                     'groups %s all return the series stored in %s: one of them does not return its own stored results' % (lits_, a_),
+                     "GetTimeSeries(name, group_of_series=...) for each group after a solve with a step trace and an initial steady state")
     ev = Evaluator(f.node, cutoff, dattr[0], sattr[0])
     try:
         rets = ev.run(params)
